@@ -29,6 +29,7 @@ Vocabulary, in terms of the Go code (`all` = `prev ++ [cur]` = the ObjectSets th
 import Pko.Model.Archive
 import Pko.Model.ArchiveSpec
 import Pko.Lemmas.C08
+import Pko.Model.ArchiveHist
 
 namespace Pko.Props.C08
 open Pko.Model.Archive Pko.Model.ArchiveSpec Pko.Lemmas.C08
@@ -209,8 +210,46 @@ theorem gc_oldest (prev : List Rev) (c : Rev) (limit : Option Int) (fin : Bool)
     have hpp : p' = p := id_inj hn (List.mem_append_left _ (List.mem_of_mem_take hp'))
       (List.mem_append_left _ hp) hid
     subst hpp
-    exact (gc_prefix prev c limit fin hs q.id).mpr
-      ⟨hne, List.mem_map.mpr ⟨q, mem_take_of_lt hsp hp' hq hlt, rfl⟩⟩
+    exact Or.inl ((gc_prefix prev c limit fin hs q.id).mpr
+      ⟨hne, List.mem_map.mpr ⟨q, mem_take_of_lt hsp hp' hq hlt, rfl⟩⟩)
+
+/-! ### revisions that are still terminating (deleted in an earlier round, teardown pending, listed)
+
+`Rev.terminating` is not read by any function of the pass, so every theorem above holds verbatim for
+slices that contain terminating revisions in any position: a terminating revision is one of the
+`|prev|` previous revisions, it takes one of the `|prev| − limit` places of the prefix that is
+pruned and it is sent `Delete` again.  The two corollaries below spell out the two halves that a
+"skip what is already being deleted" shortcut has to preserve. -/
+
+/-- **gc_resends_terminating**: a previous revision inside the pruned prefix is sent `Delete` in
+every pass that archives something — also when it is already terminating. -/
+theorem gc_resends_terminating (prev : List Rev) (c : Rev) (limit : Option Int) (fin : Bool)
+    (hs : SAsc (prev ++ [c])) (hne : toArchive prev c ≠ []) (p : Rev)
+    (hp : p ∈ prev.take ((prev.length : Int) - limit.getD 10).toNat) (_ht : p.terminating = true) :
+    Write.delete p.id ∈ (reconcile prev (some c) limit fin).1 :=
+  (gc_prefix prev c limit fin hs p.id).mpr ⟨hne, List.mem_map.mpr ⟨p, hp, rfl⟩⟩
+
+/-- **gc_keeps_within_limit**: whatever the pruned prefix consists of (terminating revisions or
+not), no revision behind it — the `limit` newest previous revisions — is deleted. -/
+theorem gc_keeps_within_limit (prev : List Rev) (c : Rev) (limit : Option Int) (fin : Bool)
+    (hs : SAsc (prev ++ [c])) (hn : ((prev ++ [c]).map (·.id)).Nodup) (q : Rev)
+    (hq : q ∈ prev.drop ((prev.length : Int) - limit.getD 10).toNat) :
+    Write.delete q.id ∉ (reconcile prev (some c) limit fin).1 := by
+  intro h
+  obtain ⟨_, hi⟩ := (gc_prefix prev c limit fin hs q.id).mp h
+  obtain ⟨p, hp, hpe⟩ := List.mem_map.mp hi
+  have hpq : p = q := id_inj hn (List.mem_append_left _ (List.mem_of_mem_take hp))
+    (List.mem_append_left _ (List.mem_of_mem_drop hq)) hpe
+  subst hpq
+  have hnp : prev.Nodup := by
+    have : (prev.map (·.id)).Nodup := by
+      rw [List.map_append] at hn
+      exact (List.nodup_append.mp hn).1
+    exact List.Pairwise.of_map (fun r : Rev => r.id)
+      (fun a b (h : a.id ≠ b.id) (hab : a = b) => h (by rw [hab])) this
+  have hsplit := List.take_append_drop ((prev.length : Int) - limit.getD 10).toNat prev
+  rw [← hsplit] at hnp
+  exact (List.nodup_append.mp hnp).2.2 p hp p hq rfl
 
 /-! ### through `objectSetReconciler.Reconcile` -/
 
@@ -442,6 +481,58 @@ theorem gc_oldest_ctrl (i : Input) (_hc : i.ctrl = true) (hwf : WF i) :
   have h := model_satisfies_spec i
   exact ⟨fun id hd => ((h.1 _ hd) hwf).1, h.2 hwf⟩
 
+/-! ### multi-round histories (`Pko.Model.ArchiveHist`)
+
+A history interleaves passes of the controller (`osr` on whatever the store lists) with roll-outs,
+status reports, finished teardowns, third-party edits and deletions.  A pruned revision that
+carries a finalizer stays listed — terminating — until its teardown finishes, so a later pruning
+round sees it again. -/
+
+open Pko.Model.ArchiveHist in
+/-- **hist_pass_ok**: in every state of every history the pass satisfies the monitored predicate
+w.r.t. what the store lists at that moment (terminating revisions included). -/
+theorem hist_pass_ok (s : State) :
+    Ok (inputOf s.revs s.odPaused s.limit s.fin) (odOut s).1 :=
+  model_satisfies_spec (inputOf s.revs s.odPaused s.limit s.fin)
+
+open Pko.Model.ArchiveHist in
+theorem step_fin (s : State) (op : Op) : (step s op).fin = s.fin := by
+  cases op <;> rfl
+
+open Pko.Model.ArchiveHist in
+/-- **hist_monitor_model_ok** (monitor-vs-model for the `hist` stream): for every initial store and
+every sequence of operations, the monitor's verdict on every observed pass of the model is `"ok"`. -/
+theorem hist_monitor_model_ok (s : State) (ops : List Op) :
+    ∀ p ∈ (observe s ops).1, verdict (inputOf p.pre p.odPaused p.limit s.fin) p.writes = "ok" := by
+  induction ops generalizing s with
+  | nil => intro p hp; cases hp
+  | cons op ops ih =>
+    intro p hp
+    have hnext := ih (step s op)
+    rw [step_fin] at hnext
+    cases op with
+    | od =>
+      simp only [observe] at hp
+      rcases List.mem_cons.mp hp with rfl | hp
+      · exact monitor_model_ok (inputOf s.revs s.odPaused s.limit s.fin)
+      · exact hnext p hp
+    | new _ _ _ _ _ => exact hnext p hp
+    | status _ _ _ _ => exact hnext p hp
+    | edit _ _ _ => exact hnext p hp
+    | del _ => exact hnext p hp
+    | finish _ => exact hnext p hp
+    | pause _ => exact hnext p hp
+    | limit _ => exact hnext p hp
+
+open Pko.Model.ArchiveHist in
+/-- In every pass of every history with well-formed listings (unique names and revision numbers):
+every deleted ObjectSet is a previous revision with fewer than `|prev| − limit` strictly older
+previous revisions — the still-terminating ones counted — and never the current one. -/
+theorem hist_gc_oldest (s : State) (hwf : WF (inputOf s.revs s.odPaused s.limit s.fin)) :
+    ∀ id, Write.delete id ∈ (odOut s).1 →
+      DeleteOK (specPrev (inputOf s.revs s.odPaused s.limit s.fin)) s.limit id :=
+  fun id hd => (gc_oldest_ctrl (inputOf s.revs s.odPaused s.limit s.fin) rfl hwf).1 id hd
+
 /-! ### concrete runs: non-vacuity and reading notes -/
 
 /-- revision literal: name, revision, Available, status-paused, lifecycle, controllerOf, objects -/
@@ -523,6 +614,33 @@ theorem archive_after_prune_errors_witness :
     reconcile [mk 0 1 false true .paused (some []) [0], mk 1 2 false true .paused (some []) [1]]
       (some (mk 2 3 true false .active none [2])) (some 0) false
       = ([.archive 0, .delete 0, .delete 1, .archive 1], true) := by
+  decide
+
+/-- Non-vacuity of the terminating dimension (the shape of seed C08-2, unit level): limit 3, four
+previous revisions of which the oldest is still terminating.  Exactly one revision is beyond the
+limit: the pass deletes revision 0 again and nothing else. -/
+theorem gc_terminating_oldest_witness :
+    reconcile [{ mk 0 1 false true .archived (some []) [0] with terminating := true },
+               mk 1 2 false true .archived (some []) [1], mk 2 3 false true .archived (some []) [2],
+               mk 3 4 false true .paused (some []) [0]]
+      (some (mk 4 5 true false .active none [1])) (some 3) true
+      = ([.archive 3, .delete 0], false) := by
+  decide
+
+open Pko.Model.ArchiveHist in
+/-- **prune_again_counts_terminating_witness** (multi-round): limit 1.  Round 1 archives revision 1
+and prunes revision 0, which stays listed (finalizer).  A new revision is rolled out, the replaced
+revision 2 is paused, confirms, and round 2 archives it: the previous revisions are now
+`[0 (terminating), 1, 2]`, two are beyond the limit — the pass deletes 0 (again) and 1, and keeps 2. -/
+theorem prune_again_counts_terminating_witness :
+    let s0 : State := { revs := [mk 0 1 false true .archived (some []) [0], mk 1 2 false true .paused (some []) [1],
+                                 mk 2 3 true false .active (some [2]) [2]],
+                        next := 3, hi := 3, odPaused := false, limit := some 1, fin := true }
+    ((observe s0 [.od, .new false true false (some []) [0], .od, .status 2 false true (some []), .od]).1.map
+        (fun p => (p.pre.map (fun r => (r.id, r.terminating)), p.writes)))
+      = [([(0, false), (1, false), (2, false)], [.archive 1, .delete 0]),
+         ([(0, true), (1, false), (2, false), (3, false)], [.pause 2]),
+         ([(0, true), (1, false), (2, false), (3, false)], [.archive 2, .delete 0, .delete 1])] := by
   decide
 
 end Pko.Props.C08
